@@ -157,7 +157,7 @@ where
 
     /// Adds a value to the set.
     ///
-    /// A [HashSetEvent::Set] change event is sent.
+    /// A [HashSetEvent::Set] change event is sent, unless an equal value is already present.
     ///
     /// Returns whether the set did have this value present.
     ///
@@ -166,6 +166,11 @@ where
     pub fn insert(&mut self, value: T) -> bool {
         self.assert_not_done();
         self.change.notify();
+
+        // An equal value that is already present is kept, thus nothing changes.
+        if self.hs.contains(&value) {
+            return false;
+        }
 
         send_event(&self.tx, &*self.on_err, HashSetEvent::Set(value.clone()));
         self.hs.insert(value)
@@ -362,7 +367,8 @@ where
                 self.complete = true;
             }
             HashSetEvent::Set(v) => {
-                self.hs.insert(v);
+                // Replace an equal value, since the observed set has done so.
+                self.hs.replace(v);
                 if self.hs.len() > self.max_size {
                     return Err(RecvError::MaxSizeExceeded(self.max_size));
                 }
